@@ -72,13 +72,30 @@ def funptr_copy_rule(run, prog, RULE):
             rel_func = guard_texts(df, b.id, dparam)
     run.need(rel_func is not None, "func_ref-- in dealloc_funp")
     ncopy = 0
+    PARTIAL = [None]
     for f in sorted(prog.functions(), key=lambda x: (x.file, x.line)):
         copies = [(b, i, n) for b, i, n in f.nodes() if n.get("k") == "Asg" and n.get("op") == "=" and (strip(n["L"]).get("t") or "") in ("struct funptr_s", "funptr_t") and strip(n["L"]).get("k") == "Un" and strip(n["R"]).get("k") == "Un"]
-        for j, (b, i, n) in enumerate(copies):
+        # the same copy written member by member starts with the header: `new->hdr = old->hdr` (the header carries the
+        # reference count, the owner and the bound arguments)
+        hdrcopies = [(b, i, n) for b, i, n in f.nodes() if n.get("k") == "Asg" and n.get("op") == "=" and strip(n["L"]).get("k") == "Mem" and strip(n["L"]).get("f") == "hdr" and strip(n["R"]).get("k") == "Mem" and strip(n["R"]).get("f") == "hdr"
+                     and "funptr" in (strip(strip(n["L"])["b"]).get("t") or "") and strip(strip(n["L"])["b"]).get("k") == "Ref" and strip(strip(n["R"])["b"]).get("k") == "Ref"]
+        for j, (b, i, n) in enumerate(copies + hdrcopies):
             ncopy += 1
             run.saw(f)
-            newv = strip(strip(n["L"])["e"]).get("n")
-            oldv = strip(strip(n["R"])["e"]).get("n")
+            if (b, i, n) in copies and PARTIAL[0] is None:
+                # function pointer blocks are allocated as header + the member of their kind (make_efun_funp ...)
+                PARTIAL[0] = sorted({g.name for g in prog.functions() for b9, i9, n9 in g.calls() if n9.get("args") and any(
+                    x.get("k") == "Bin" and x.get("op") == "+" and "sizeof(funptr_hdr_t)" in show(x).replace(" ", "") for a in n9["args"] for x in walk(a))})
+            if (b, i, n) in copies and PARTIAL[0]:
+                run.ob(RULE, "funptr-copy-size:%s:%s:%d" % (rel(f.file), f.name, j), False,
+                       "`%s` at line %s copies sizeof(funptr_t) bytes, but function pointer blocks are allocated as header + the member of their kind (%s): for an efun or simul_efun pointer the copy reads past the end of the source block" % (show(n)[:40], n.get("l"), ", ".join(PARTIAL[0][:3])),
+                       f.file, n.get("l"), f.name, what="%s copies a whole funptr_t out of a block that may be shorter" % f.name)
+            if (b, i, n) in hdrcopies:
+                newv = strip(strip(n["L"])["b"]).get("n")
+                oldv = strip(strip(n["R"])["b"]).get("n")
+            else:
+                newv = strip(strip(n["L"])["e"]).get("n")
+                oldv = strip(strip(n["R"])["e"]).get("n")
             names = [x for x in (newv, oldv) if x]
             base_guards = guard_texts(f, b.id, names)
             why = []
